@@ -60,11 +60,20 @@ impl Scenario for C14 {
         vec!["public API only (ConfirmSmoother::process); the end-to-end path listener -> smoother is exercised by C13's scenario, not here".into()]
     }
     fn plan(&self, thorough: bool, seed: u64) -> Vec<CaseSpec> {
-        let mut v = plan_random("C14", "valid", seed, if thorough { 20_000_000 } else { 1_000_000 });
-        v.extend(plan_random("C14", "arbitrary", seed, if thorough { 6_000_000 } else { 300_000 }));
-        // longer windows: up to 80 outstanding tags, a start tag right below the 64-bit boundary included
-        v.extend(plan_random("C14", "valid-long", seed, if thorough { 1_000_000 } else { 50_000 }));
-        v
+        let v = self.plan_view(thorough, seed);
+        (0..v.len()).filter_map(|i| v.get(i)).collect()
+    }
+    fn plan_view(&self, thorough: bool, seed: u64) -> PlanView {
+        // computed on demand (27 million cases in the thorough tier)
+        PlanView::Blocks {
+            verif_seed: seed,
+            blocks: vec![
+                RandomBlock { prop: "C14", family: "valid", n: if thorough { 20_000_000 } else { 1_000_000 } },
+                RandomBlock { prop: "C14", family: "arbitrary", n: if thorough { 6_000_000 } else { 300_000 } },
+                // longer windows: up to 80 outstanding tags, a start tag right below the 64-bit boundary included
+                RandomBlock { prop: "C14", family: "valid-long", n: if thorough { 1_000_000 } else { 50_000 } },
+            ],
+        }
     }
     fn real_vs_stub(&self) -> serde_json::Value {
         serde_json::json!({"real": ["amiquip::ConfirmSmoother (src/confirm.rs)"], "simulated": ["the raw confirmation history a broker may produce"], "not_run": ["scheduler, clock, socket: not applicable to a single-actor pure data structure"]})
